@@ -1,4 +1,5 @@
 import configparser
+import math
 import re
 import collections
 
@@ -272,6 +273,9 @@ class _TableFormSection(object):
 
     if len(data[0]) == 0:
       raise ConfigParserException("No data items were given in section '{}'".format(section_name))
+
+    if not all(math.isfinite(v) for v in data[0] + data[1]):
+      raise ConfigParserException("The data given in section '{}' contain a value that is not finite (nan or inf)".format(section_name))
 
     return data
 
